@@ -238,6 +238,10 @@ func newWorld(tag string) (*world, error) {
 		Agents: []simcore.Agent{{Hostname: "host1", CPUs: 64, Mem: 65536, Ports: [][2]uint64{{9000, 19000}, {30000, 40000}},
 			Attributes: map[string]string{"machine_id": "host1"}}},
 		Quiet: os.Getenv("SIM_VERBOSE") == "",
+		// with no delay the OFFERS event can be handled before acquireTasks listens for the verdict
+		// of resourceOffers; the core then drops the verdict (non-blocking send) and acquireTasks
+		// waits for ever holding deployMu (C02's subject, not C01's): every later deployment blocks
+		OfferDelay: 4 * time.Millisecond,
 	})
 	if err != nil {
 		return nil, err
